@@ -18,7 +18,7 @@
    the flag: the hand-over to the auction module is not modelled. *)
 From Comdex Require Import Lib.Base Lib.DecArith Lib.DecFacts Model.Lend Model.LendEx.
 From Comdex Require Import Proofs.LendProofs Proofs.LendProofsInv Proofs.LendProofsSide Proofs.LendProofsSteps Proofs.LendProofsSteps2
-     Proofs.LendProofsHist Proofs.LendProofsLtv Proofs.LendProofsRules Proofs.LendProofsMain.
+     Proofs.LendProofsHist Proofs.LendProofsLtv Proofs.LendProofsRules Proofs.LendProofsMain Proofs.LendProofsAvail.
 
 (* ---------------------------------------------------------------------------------------------- *)
 (* (a) published total lent = sum over the lend positions of the pool-asset of (available to
@@ -71,6 +71,27 @@ Example c08_history_nonvacuous :
   option_map s_bor (pget (sstats st) (1, 3)) = Some 900002 /\
   pledged (borrows st) (nborrows st) 3 = 1000000000 /\
   option_map l_avail (zget (lends st) 3) = Some 0.
+Proof. vm_compute. repeat split. Qed.
+
+(* the "amount still available to borrow" of every lend position is never negative: in every
+   reachable state (so a position cannot pledge, or pay out, more than it holds) *)
+Theorem c08_available_nonneg : forall cfg st0 ops,
+  empty_books st0 ->
+  let st := run cfg st0 ops in
+  (forall i l, zget (lends st) i = Some l -> 0 <= l_avail l) /\ holds_C08_avail st = true.
+Proof.
+  intros cfg st0 ops H0 st.
+  assert (HA : Avail (lends st)).
+  { apply run_avail; [apply init_good; exact H0|]. destruct H0 as (EL & _). rewrite EL. intros i l E. discriminate E. }
+  split; [exact HA|]. unfold holds_C08_avail. apply forallb_forall. intros i _.
+  destruct (zget (lends st) i) as [l|] eqn:E; [|reflexivity]. apply Z.leb_le. exact (HA i l E).
+Qed.
+Print Assumptions c08_available_nonneg.
+
+Example c08_available_nonvacuous :
+  (* the position of asset 2 has pledged everything: 1 more cannot be pledged (error 10) *)
+  let st := run ex_cfg ex_st0 (ex_warm ++ [ex_borrow]) in
+  option_map l_avail (zget (lends st) 3) = Some 0 /\ step ex_cfg st (ODepositBorrow 1 1 6 1 bi0) = Err 10.
 Proof. vm_compute. repeat split. Qed.
 
 (* ---------------------------------------------------------------------------------------------- *)
